@@ -162,4 +162,69 @@ func (*Thread).opModuloInt
   ensures err: (ret.flag == value.UNDEFINED_FLAG <==> old(snd(value.ModuloVal(second(vm), top(vm)))).flag == value.UNDEFINED_FLAG) && (ret.flag != value.UNDEFINED_FLAG ==> ret == old(snd(value.ModuloVal(second(vm), top(vm)))))
   ensures sameS: ret.flag == value.UNDEFINED_FLAG && old(isSmall(second(vm))) ==> top(vm) == old(fst(value.ModuloVal(second(vm), top(vm))))
   ensures sameB: ret.flag == value.UNDEFINED_FLAG && old(isBig(second(vm))) ==> top(vm) == old(fst(value.ModuloVal(second(vm), top(vm))))
+
+// ==== upvalues: closures capture variables, not values (C13) ============================
+// An open upvalue points at a stack slot; a closed one points at its own `closed` field.
+spec fn closedUp(u *Upvalue) bool = u.slot == &u.closed
+spec fn upval(u *Upvalue) value.Value = load(value.Value, u.slot)
+
+func NewClosedUpvalue
+  props C13
+  assigns fresh
+  ensures ret != nil && fresh(ret) && closedUp(ret) && upval(ret) == val
+
+func NewUpvalue
+  props C13
+  assigns fresh
+  ensures ret != nil && fresh(ret) && ret.slot == slot && ret.next == nil
+
+func (*Upvalue).IsClosed
+  props C13
+  requires u != nil
+  assigns nothing
+  ensures ret <==> closedUp(u)
+
+func (*Upvalue).Get
+  props C13
+  requires u != nil && u.slot != nil
+  assigns nothing
+  ensures ret == upval(u)
+
+// writing through an upvalue changes the captured variable itself: the stack slot while the
+// variable's frame is alive, the upvalue's own cell afterwards
+func (*Upvalue).Set
+  props C13
+  requires u != nil && u.slot != nil
+  ensures upval(u) == v && u.slot == old(u.slot) && u.next == old(u.next)
+  ensures others: forall a int :: a != old(u.slot) ==> load(value.Value, a) == old(load(value.Value, a))
+
+// closing moves the variable's current value into the upvalue: reads before and after agree
+func (*Upvalue).Close
+  props C13
+  requires u != nil && u.slot != nil
+  ensures closed: closedUp(u)
+  ensures kept: upval(u) == old(upval(u))
+  ensures link: u.next == old(u.next)
+  ensures stack: forall a int :: a != &u.closed ==> load(value.Value, a) == old(load(value.Value, a))
+
+// capturing a stack slot: the result refers to exactly that slot; when the open list already
+// holds an upvalue for the slot at the position the search stops at, that very object is
+// returned (sharing), otherwise one new node is linked in at that position
+func (*Thread).captureUpvalue
+  props C13
+  requires vm != nil
+  ensures ret != nil && ret.slot == slot
+  ensures stack: forall a int :: a >= 0 && a < old(sbase(vm)) + 24 * old(len(vm.stack)) ==> load(value.Value, a) == old(load(value.Value, a))
+
+// closing every open upvalue at or above lastToClose: afterwards the head of the open list
+// (if any) lies below it
+func (*Thread).opCloseUpvalues
+  props C13
+  requires vm != nil
+  requires forall u *Upvalue :: u != nil ==> u.slot != nil
+  ensures vm.openUpvalueHead == nil || vm.openUpvalueHead.slot < lastToClose
+  ensures vm.sp == old(vm.sp) && vm.fp == old(vm.fp) && vm.stack == old(vm.stack)
+  loop 1
+    invariant vm.sp == old(vm.sp) && vm.fp == old(vm.fp) && vm.stack == old(vm.stack)
+    invariant forall u *Upvalue :: u != nil ==> u.slot != nil
 @*/
